@@ -818,6 +818,8 @@ def _apply_proj(base, proj):
             continue
         break
     if proj:
+        if base[0] == "proj":
+            return ("proj", base[1], base[2] + _proj_key(proj))
         return ("proj", base, _proj_key(proj))
     return base
 
@@ -960,3 +962,79 @@ def subterms(t, depth=0):
     elif k == "agg":
         for v in t[3].values():
             yield from subterms(v, depth + 1)
+
+
+# --------------------------------------------------------------------------
+# light path-sensitive walk: tracks the statically known enum variant of locals
+# (through aggregates, moves and Try::branch) so that `match x { None => Err(..) }?`
+# is followed into the Break arm only.
+
+def walk_paths(body, start_bb, visit, state=None, stop=None, limit=4000):
+    """DFS over blocks from start_bb.  `visit(bb, state)` is called once per
+    (block, state) and returns None to continue, or any other value to end that
+    path with that outcome.  Blocks without successors end a path with outcome
+    ("exit", bb).  Returns the list of outcomes."""
+    outcomes = []
+    seen = set()
+    stack = [(start_bb, dict(state or {}))]
+    steps = 0
+    while stack:
+        bb, st = stack.pop()
+        key = (bb, tuple(sorted(st.items())))
+        if key in seen:
+            continue
+        seen.add(key)
+        steps += 1
+        if steps > limit:
+            outcomes.append(("limit", bb))
+            break
+        r = visit(bb, st)
+        if r is not None:
+            outcomes.append(r)
+            continue
+        if stop is not None and bb in stop:
+            outcomes.append(("stop", bb))
+            continue
+        blk = body.blocks[bb]
+        st = dict(st)
+        for s in blk["stmts"]:
+            if s["k"] != "assign":
+                continue
+            pl = s["place"]
+            rv = s["rv"]
+            if pl["p"]:
+                continue
+            l = pl["l"]
+            if rv["k"] == "agg" and rv["kind"] == "adt":
+                st[l] = rv["variant"]
+            elif rv["k"] == "use" and op_place(rv["op"]) is not None and not op_place(rv["op"])["p"] and op_place(rv["op"])["l"] in st:
+                st[l] = st[op_place(rv["op"])["l"]]
+            else:
+                st.pop(l, None)
+        t = blk["term"]
+        succ = list(body.succs(bb))
+        if t["k"] == "call":
+            d = t["dest"]["l"]
+            st.pop(d, None)
+            nm = _norm(t["callee"].get("path", ""))
+            if nm == "std::ops::Try::branch" and t["args"]:
+                p = op_place(t["args"][0])
+                if p is not None and not p["p"] and p["l"] in st:
+                    v = st[p["l"]]
+                    st[d] = {"Ok": "Continue", "Err": "Break", "Some": "Continue", "None": "Break"}.get(v, None)
+                    if st[d] is None:
+                        st.pop(d)
+        elif t["k"] == "switch":
+            sw = switch_enum(body, bb)
+            if sw is not None:
+                p = body.canon(sw["place"])
+                if not p["p"] and p["l"] in st:
+                    tgt = variant_target(sw, body, st[p["l"]])
+                    if tgt is not None:
+                        succ = [tgt]
+        if not succ:
+            outcomes.append(("exit", bb))
+            continue
+        for s in succ:
+            stack.append((s, st))
+    return outcomes
